@@ -4,6 +4,7 @@ Reference oracle: typed three-valued predicate evaluation over the stored payloa
 value is unspecified - null field, undocumented comparison - are excluded from the reference clause).
 Relational oracle: the same query must return the same k-set in every layout."""
 import json
+import os
 
 from . import gen, pred
 from .hist import walk_tiers, walk_crash
@@ -292,6 +293,10 @@ def run(run):
                        "equality only for string/enum/bool; comparisons involving null/absent fields and string ordering are unspecified "
                        "and only checked for layout invariance"]
     run.parallel(history_task, tasks)
+    if run.tier == "thorough" or os.environ.get("VERIF_MEMCHECK"):
+        # sanitizer layer: a slice of the same histories under valgrind memcheck (filters, zone readers, SIMD scans)
+        from .core import run_under_memcheck
+        run_under_memcheck(run, history_task, [dict(t, name="mc-" + t["name"]) for t in tasks[:8] + tasks[-4:]], "C02 histories")
 
 
 def replay(run, path):
